@@ -12,7 +12,12 @@ Inductive sev :=
   | SQuery (q : query)
   | SOp (o : op)
   | SDhcp (tbl : list (addr * bytes))
-  | SConf (anon : bool) (qign : list (bytes * bool))   (* PUT /control/querylog/config/update *)
+  (* PUT /control/querylog/config/update; observed afterwards: enabled and
+     anonymize_client_ip of GET /control/querylog/config, and whether the shared
+     IPMut masks a probe address *)
+  | SConf (enabled anon : bool) (qign : list (bytes * bool)) (obs : bool * bool * bool)
+  (* POST /control/querylog_config (deprecated), each field present or absent *)
+  | SLegacy (enabled anon : option bool) (obs : bool * bool * bool)
   | SFlush
   | SSearch (obs : list lentry).                        (* GET /control/querylog: name, client, client_id *)
 
@@ -28,11 +33,11 @@ Definition oracle (tbl : list (bytes * bool)) : bytes -> bool :=
   fun n => match bget n tbl with Some b => b | None => false end.
 
 Record rstate := {
-  r_ix : index; r_dhcp : list (addr * bytes); r_anon : bool; r_qign : list (bytes * bool); r_st : store
+  r_ix : index; r_dhcp : list (addr * bytes); r_conf : qconf; r_qign : list (bytes * bool); r_st : store
 }.
 
 Definition env_of (refuse : bool) (sign : list (bytes * bool)) (r : rstate) : env :=
-  {| e_ix := r_ix r; e_dhcp := fun a => zget a (r_dhcp r); e_anon := r_anon r; e_refuse_any := refuse;
+  {| e_ix := r_ix r; e_dhcp := fun a => zget a (r_dhcp r); e_anon := qc_mut (r_conf r); e_qlog_enabled := qc_enabled (r_conf r); e_refuse_any := refuse;
      e_qign := oracle (r_qign r); e_sign := oracle sign |}.
 
 Definition eqb_lentry (a b : lentry) : bool :=
@@ -58,21 +63,30 @@ Definition counts_match {K} (eqb : K -> K -> bool) (l : list K) (tbl : list (K *
   forallb (fun kn => (count_of eqb (fst kn) l =? snd kn) && negb (snd kn =? 0)) tbl &&
   (N.of_nat (length l) =? fold_right (fun kn acc => snd kn + acc) 0 tbl).
 
+Definition conf_obs_ok (c : qconf) (obs : bool * bool * bool) : bool :=
+  match obs with
+  | (e, a, m) => Bool.eqb (qc_enabled c) e && Bool.eqb (qc_anon c) a && Bool.eqb (qc_mut c) m
+  end.
+
 Definition step_ok refuse sign macs (r : rstate) (e : sev) : rstate * bool :=
   let mac_of := fun c => bget c macs in
   match e with
   | SQuery q =>
-      ({| r_ix := r_ix r; r_dhcp := r_dhcp r; r_anon := r_anon r; r_qign := r_qign r;
+      ({| r_ix := r_ix r; r_dhcp := r_dhcp r; r_conf := r_conf r; r_qign := r_qign r;
           r_st := process (env_of refuse sign r) q (r_st r) |}, true)
   | SOp o =>
-      ({| r_ix := fst (step (r_ix r) o); r_dhcp := r_dhcp r; r_anon := r_anon r; r_qign := r_qign r;
+      ({| r_ix := fst (step (r_ix r) o); r_dhcp := r_dhcp r; r_conf := r_conf r; r_qign := r_qign r;
           r_st := r_st r |}, true)
   | SDhcp t =>
-      ({| r_ix := r_ix r; r_dhcp := t; r_anon := r_anon r; r_qign := r_qign r; r_st := r_st r |}, true)
-  | SConf a q =>
-      ({| r_ix := r_ix r; r_dhcp := r_dhcp r; r_anon := a; r_qign := q; r_st := r_st r |}, true)
+      ({| r_ix := r_ix r; r_dhcp := t; r_conf := r_conf r; r_qign := r_qign r; r_st := r_st r |}, true)
+  | SConf e a q obs =>
+      let c := conf_step (r_conf r) (CPut e a) in
+      ({| r_ix := r_ix r; r_dhcp := r_dhcp r; r_conf := c; r_qign := q; r_st := r_st r |}, conf_obs_ok c obs)
+  | SLegacy e a obs =>
+      let c := conf_step (r_conf r) (CLegacy e a) in
+      ({| r_ix := r_ix r; r_dhcp := r_dhcp r; r_conf := c; r_qign := r_qign r; r_st := r_st r |}, conf_obs_ok c obs)
   | SFlush =>
-      ({| r_ix := r_ix r; r_dhcp := r_dhcp r; r_anon := r_anon r; r_qign := r_qign r;
+      ({| r_ix := r_ix r; r_dhcp := r_dhcp r; r_conf := r_conf r; r_qign := r_qign r;
           r_st := flush (r_st r) |}, true)
   | SSearch obs =>
       (r, same_multiset eqb_lentry
@@ -99,7 +113,7 @@ Definition final_ok (ev : env) mac_of (st : store) obs_file obs_domains (obs_cli
   (N.of_nat (length (st_stats st)) =? obs_total).
 
 Definition init_state anon qign : rstate :=
-  {| r_ix := empty_index; r_dhcp := []; r_anon := anon; r_qign := qign; r_st := empty_store |}.
+  {| r_ix := empty_index; r_dhcp := []; r_conf := conf_init true anon; r_qign := qign; r_st := empty_store |}.
 
 Definition case_ok (c : case) : bool :=
   match c with
